@@ -36,16 +36,16 @@ func checkC01(p *Prog, r *Report) {
 
 // frozen table of explicit panic sites reachable from compile/execution entries, each with its reason
 var panicAllowed = map[string]string{
-	"(*variablePart).String|panic":             "default arm of a switch over the four part types the parser creates (varTypeNil is never produced: the lexer emits no TokenNil); assumed unreachable",
-	"(*variableResolver).resolve|panic":        "default arm of the switch over part types; the parser only creates int/ident/subscript parts here; assumed unreachable",
-	"(*tagBlockNode).Execute|panic":            "internal assertion ctx.template != nil; execution contexts are always created with a template",
-	"tagBlockParser|panic":                     "internal assertion doc.template != nil; document parsers always carry their template",
-	"(*LocalFilesystemLoader).Abs|panic":       "os.Getwd failure (process has no working directory): environment fault, not template input",
-	"Must|panic":                               "documented: Must panics on a compile error (start-up helper); Render* shortcuts use it by design and are not C01 observation points",
-	"MustApplyFilter|panic":                    "documented API that panics on error; not used by the engine",
-	"NewSet|panic":                             "documented: a set needs at least one loader (configuration time)",
-	"MustNewLocalFileSystemLoader|log.Panic":   "documented Must* constructor (configuration time)",
-	"MustNewHttpFileSystemLoader|log.Panic":    "documented Must* constructor (configuration time)",
+	"(*variablePart).String|panic":           "default arm of a switch over the four part types the parser creates (varTypeNil is never produced: the lexer emits no TokenNil); assumed unreachable",
+	"(*variableResolver).resolve|panic":      "default arm of the switch over part types; the parser only creates int/ident/subscript parts here; assumed unreachable",
+	"(*tagBlockNode).Execute|panic":          "internal assertion ctx.template != nil; execution contexts are always created with a template",
+	"tagBlockParser|panic":                   "internal assertion doc.template != nil; document parsers always carry their template",
+	"(*LocalFilesystemLoader).Abs|panic":     "os.Getwd failure (process has no working directory): environment fault, not template input",
+	"Must|panic":                             "documented: Must panics on a compile error (start-up helper); Render* shortcuts use it by design and are not C01 observation points",
+	"MustApplyFilter|panic":                  "documented API that panics on error; not used by the engine",
+	"NewSet|panic":                           "documented: a set needs at least one loader (configuration time)",
+	"MustNewLocalFileSystemLoader|log.Panic": "documented Must* constructor (configuration time)",
+	"MustNewHttpFileSystemLoader|log.Panic":  "documented Must* constructor (configuration time)",
 }
 
 func ruleC01Panics(p *Prog, a *Anchors, r *Report) {
